@@ -214,20 +214,20 @@ func (nw *network) requestENR(n *enode.Node) (*enode.Node, error) {
 // ---------------------------------------------------------------- history
 
 type history struct {
-	r      *vrt.Run
-	idx    int
-	rng    *rand.Rand
-	self   *enode.Node
-	tab    *discover.Table
-	clock  *mclock.Simulated
-	nw     *network
-	peers  []*peer
-	byID   map[enode.ID]*peer
-	pmu    sync.Mutex // protects peers' version lists in the concurrent variant
-	log    []string
-	lmu    sync.Mutex
-	conc   bool
-	taint  map[enode.ID]bool // see releasePings
+	r     *vrt.Run
+	idx   int
+	rng   *rand.Rand
+	self  *enode.Node
+	tab   *discover.Table
+	clock *mclock.Simulated
+	nw    *network
+	peers []*peer
+	byID  map[enode.ID]*peer
+	pmu   sync.Mutex // protects peers' version lists in the concurrent variant
+	log   []string
+	lmu   sync.Mutex
+	conc  bool
+	taint map[enode.ID]bool // see releasePings
 }
 
 func (h *history) logf(f string, a ...any) {
